@@ -223,7 +223,8 @@ def signature_grid():
                          lambda aw=aw, dw=dw, fs=fs: wishbone.Signature(addr_width=aw, data_width=dw, features=fs)))
         if aw == 5 and (dw, gran) == (32, 8):
             # the same feature set in other spellings: Feature members, a list, a frozenset of strings
-            for spell in (lambda fs: {wishbone.Feature(x) for x in fs}, lambda fs: sorted(fs), lambda fs: frozenset(str(x) for x in fs)):
+            for spell in (lambda fs: {wishbone.Feature(x) for x in fs}, lambda fs: sorted(fs), lambda fs: frozenset(str(x) for x in fs),
+                          lambda fs: (x for x in sorted(fs)), lambda fs: iter(sorted(fs, reverse=True)), lambda fs: dict.fromkeys(sorted(fs)).keys()):
                 rows.append(("wishbone.Signature", {"addr_width": aw, "data_width": dw, "granularity": gran, "features": tuple(sorted(fs))},
                              lambda aw=aw, dw=dw, gran=gran, fs=fs, spell=spell: wishbone.Signature(addr_width=aw, data_width=dw, granularity=gran, features=spell(fs))))
     for trg in ["level", "rise", "fall"]:
@@ -272,6 +273,32 @@ def signature_checks():
             fails.append(("C20", f"{c1}: == is {s1 == s2} for parameters {p1} vs {p2}", f"eq:{c1}"))
         if (s2 == s1) != (p1 == p2):                       # == must not depend on the operand order
             fails.append(("C20", f"{c1}: == is {s2 == s1} for parameters {p2} vs {p1}", f"eq:{c1}"))
+    # a user's own subclass of a signature class (one that only adds a helper method): its instances round-trip through
+    # create() and are equal to signatures of the library's class with the same parameters, in both operand orders
+    sub_rows = {
+        "csr.Signature": (csr.Signature, [dict(addr_width=4, data_width=8), dict(addr_width=1, data_width=32)]),
+        "csr.Element.Signature": (csr.Element.Signature, [dict(width=8, access="rw"), dict(width=0, access="r")]),
+        "csr.FieldPort.Signature": (csr.FieldPort.Signature, [dict(shape=4, access="rw"), dict(shape=signed(3), access="r")]),
+        "wishbone.Signature": (wishbone.Signature, [dict(addr_width=4, data_width=32, granularity=8, features={"err", "cti"}), dict(addr_width=0, data_width=8)]),
+        "event.Source.Signature": (event.Source.Signature, [dict(trigger="rise"), dict(trigger="level")]),
+        "gpio.PinSignature": (gpio.PinSignature, [{}]),
+    }
+    for c, (cls, kws) in sub_rows.items():
+        Sub = type("My" + cls.__name__, (cls,), {"helper": lambda self: 1})
+        for kw in kws:
+            try:
+                a, b = Sub(**kw), cls(**kw)
+                stats["pairs"] += 2
+                if not (a.create().signature == a):
+                    fails.append(("C20", f"{c}{kw}: for an instance of a user subclass of the signature class, create().signature != the original", f"subclass-roundtrip:{c}"))
+                if not (a == b) or not (b == a):
+                    fails.append(("C20", f"{c}{kw}: an instance of a user subclass is not equal to the library's signature with the same parameters "
+                                         f"(a == b: {a == b}, b == a: {b == a})", f"subclass-eq:{c}"))
+                other = [k2 for k2 in kws if k2 != kw]
+                if other and (a == cls(**other[0])):
+                    fails.append(("C20", f"{c}: a subclass instance with parameters {kw} equals the signature with {other[0]}", f"subclass-eq:{c}"))
+            except Exception as e:
+                fails.append(("C20", f"{c}{kw}: a trivial subclass cannot be used: {type(e).__name__}: {str(e)[:100]}", f"subclass:{c}"))
     # a signature does not change when the caller goes on using (and changing) the collection it passed in
     for fs0 in ({"err"}, {"lock", "cti"}, set()):
         for conv in (lambda x: set(x), lambda x: {wishbone.Feature(f) for f in x}, lambda x: sorted(x)):
